@@ -33,6 +33,11 @@ namespace OP2Utility
 			throw std::runtime_error("Image height is too large to fit in standard bitmap file format.");
 		}
 
+		// The bitmap header stores the width as a signed 32 bit value.
+		if (imageMeta.width > INT32_MAX) {
+			throw std::runtime_error("Image width is too large to fit in standard bitmap file format.");
+		}
+
 		BitmapFile::CreateIndexed(imageMeta.GetBitCount(), imageMeta.width, -static_cast<int32_t>(imageMeta.height), palette, pixelContainer).
 			WriteIndexed(filenameOut);
 	}
